@@ -197,7 +197,9 @@ Bad(s, e) ==     \* s = model state after the event
   \cup (IF unionEv /\ kind \in {"bloom", "disk"} /\ Len(e.full) > 0 /\ ~FullOK(s, e) THEN {"C12.cells"} ELSE {})
   \cup (IF kind = "cbloom" /\ \E i \in I : pr[i][2] < Owed(s, pr[i][1]) THEN {"C08.cb_lower"} ELSE {})
   \cup (IF kind = "cms" /\ \E i \in I : (pr[i][2] < Owed(s, pr[i][1]) \/ pr[i][2] > s.n) THEN {"C02.bounds"} ELSE {})
-  \cup (IF kind = "cms" /\ e.op \in {"add", "rem"} /\ Len(e.ks) = 1 /\ e.ret # Answer(s, e.ks[1][1]) THEN {"C02.ret_eq_check"} ELSE {})
+  \cup (IF kind = "cms" /\ e.op \in {"add", "rem"} /\ Len(e.ks) = 1 /\ Len(pr) > 0 /\ pr[1][1] = e.ks[1][1] /\ e.ret # pr[1][2]
+        THEN {"C02.ret_eq_check"} ELSE {})                       \* the value the call returned vs. what check() reported right afterwards
+  \cup (IF kind = "cms" /\ e.op \in {"add", "rem"} /\ Len(e.ks) = 1 /\ e.ret # Answer(s, e.ks[1][1]) THEN {"DRIFT.ret"} ELSE {})
   \cup (IF kind = "qf" /\ \E i \in I : pr[i][2] # Answer(s, pr[i][1]) THEN {"C04.member"} ELSE {})
   \cup (IF kind = "qf" /\ Len(e.full) > 0 /\ ~FullOK(s, e) THEN {"C04.hashes"} ELSE {})
   \cup (IF kind \in {"cko", "ccko"} /\ e.op # "addfail" /\ \E i \in I : Owed(s, pr[i][1]) > 0 /\ pr[i][2] = 0 THEN {"C03.kept"} ELSE {})
@@ -214,6 +216,8 @@ Bad(s, e) ==     \* s = model state after the event
   \cup (IF kind = "bits" /\ \E i \in I : pr[i][2] # Answer(s, pr[i][1]) THEN {"C20.read_last_write"} ELSE {})
   \cup (IF kind = "bits" /\ e.aux.dump = 1 /\ (~FullOK(s, e) \/ e.ret # Cardinality(s.bits)) THEN {"C20.frame_popcount"} ELSE {})
   \cup (IF kind \in {"cbloom", "cms"} /\ unionEv /\ Len(e.full) > 0 /\ ~FullOK(s, e) THEN {"C12.cells"} ELSE {})
+  \cup (IF kind = "cms" /\ e.op = "join" /\ Len(e.full) > 0 /\ ~FullOK(s, e) THEN {"C12.cells"} ELSE {})       \* the joined sketch = one sketch fed both streams
+  \cup (IF kind = "cms" /\ e.op = "join" /\ \E i \in I : pr[i][2] < Owed(s, pr[i][1]) THEN {"C12.sum_lower"} ELSE {})
   \cup (IF kind \notin {"qf", "cko", "ccko", "hh", "st", "bits"} /\ ~unionEv /\ \E i \in I : pr[i][2] # Answer(su, pr[i][1]) THEN {"DRIFT.answer"} ELSE {})
   \cup (IF kind \notin {"qf", "cko", "ccko", "hh", "st", "bits"} /\ ~unionEv /\ Len(e.full) > 0 /\ ~FullOK(s, e) THEN {"DRIFT.state"} ELSE {})
   \cup (IF kind = "qf" /\ e.aux.q # s.q THEN {"DRIFT.q"} ELSE {})
